@@ -218,6 +218,11 @@ class Ctx:
     def ob(self, name, ok):
         self.obligations.append((name, bool(ok)))
 
+    def unknown_violations(self):
+        """violations registered so far that are not listed as known findings"""
+        keys = {k['key'] for k in self.known() if k.get('kind') == 'known'}
+        return [v for v in self.violations if v['key'] not in keys]
+
     def known(self):
         p = os.path.join(VERIF, 'known_findings.json')
         if not os.path.exists(p):
